@@ -311,7 +311,202 @@ def check_overwrite(ctx, sc):
                       where, witness=dict(configuration='forward edge skipping a column; the cell just before the reader in the driver row is occupied'))
 
 
+def check_f(ctx, sm, tier, seed):
+    """C18.f: place-and-route is structure-only code (grids, lists, geometry): it is evaluated by the abstract interpreter on
+    elaborated structural blocks (library compositions and synthetic netlists with feedback, long forward edges, fan-out,
+    one wire on two pins, shadowed wire names).  Oracle = the property: one symbol per child and per port; no two of them
+    overlap; for every wire the nets carrying it form one connected figure that contains the real driver pin and every
+    real reader pin, and every pin a net of that wire ends on belongs to that wire."""
+    import random
+    from ..elab import ElabError, ElabRaise, PyExc, ObjV
+    from ..facts import Facts
+    from ..netlist import Design, NetError
+    from ..specs import SPECS
+    from .c02 import overlay_source, CASES_REL
+    f2 = Facts(sm.with_overlay({CASES_REL: overlay_source()}))
+    rnd = random.Random(seed + 18)
+    where = '%s:Schematic.placeAndRoute' % REL
+    MARKERS = ('PassthroughSymbol', 'FeedbackStartSymbol', 'FeedbackStopSymbol')
+
+    def synth(name, *args, **kw):
+        return lambda D: D.make(name, 'dut', *[a(D) if callable(a) else a for a in args], rel=CASES_REL, **{k: (v(D) if callable(v) else v) for k, v in kw.items()})
+
+    def W(n, w=4):
+        return lambda D: D.wire(n, w)
+    designs = [('HvAccumulator', synth('HvAccumulator', W('a'), W('q'))),
+               ('HvAccumulator(en)', synth('HvAccumulator', W('a'), W('q'), en=W('en', 1))),
+               ('HvLongEdge(1)', synth('HvLongEdge', W('a'), W('r'), 1)),
+               ('HvLongEdge(2)', synth('HvLongEdge', W('a'), W('r'), 2)),
+               ('HvTwoFeedback', synth('HvTwoFeedback', W('a', 1), W('q', 1))),
+               ('HvLongEdge(3)', synth('HvLongEdge', W('a'), W('r'), 3)),
+               ('HvLongEdge(5)', synth('HvLongEdge', W('a'), W('r'), 5)),
+               ('HvTwoPins', synth('HvTwoPins', W('a'), W('b', 1), W('r'), W('s'))),
+               ('HvPipeFeedback', synth('HvPipeFeedback', W('a'), W('q'))),
+               ('HvInnerName', synth('HvInnerName', W('t'), W('r'))),
+               ('HvLane', synth('HvLane', W('a'), W('r'), True))]
+    for sp in SPECS:
+        cfgs = list(sp['configs'](tier))
+        for p in (cfgs[len(cfgs) // 2:len(cfgs) // 2 + 1] if tier == 'quick' else cfgs[::max(1, len(cfgs) // 3)][:3]):
+            designs.append(('%s %s' % (sp['name'], p), (lambda D, sp=sp, p=p: (sp['build'](D, p), D.sys.attrs['children']['dut'])[1])))
+    done = 0
+    skipped = []
+    outside = []
+    problems = {}
+
+    def meth(el, o, name, *args):
+        return el.call(el.getattr_(o, name), list(args), {}, {})
+
+    for name, build in designs:
+        try:
+            D = Design(f2)
+            top = build(D)
+            if not top.attrs.get('children'):
+                continue
+            el = D.el
+            el.steps = 0
+            sc = el.find_class('Schematic', REL)
+            sch = el.instantiate(sc, [top], {})
+        except ElabRaise as e:
+            skipped.append('%s: raises %s' % (name, str(e)[:60]))
+            continue
+        except (ElabError, NetError, PyExc) as e:
+            skipped.append('%s: %s' % (name, str(e)[:80]))
+            continue
+        objs = [o for o in sch.attrs.get('objs', []) if isinstance(o, ObjV)]
+        nets = [n for n in sch.attrs.get('nets', []) if isinstance(n, ObjV)]
+        if any(o.cinfo.name == 'MissingConnectionSymbol' for o in objs):
+            outside.append(name)       # an internal wire without driver: outside the property's domain
+            continue
+        done += 1
+        cls0 = name.split(' ')[0]
+        children = list(top.attrs['children'].values())
+        ports = list(top.attrs.get('inPorts', [])) + list(top.attrs.get('outPorts', [])) + list(top.attrs.get('inOutPorts', []))
+        # (1) one symbol per child / port
+        sym_of = {}
+        for thing, kind in [(c, 'instance') for c in children] + [(p, 'port') for p in ports]:
+            ss = [o for o in objs if o.attrs.get('obj') is thing]
+            if len(ss) != 1:
+                problems.setdefault(('symbol-count', cls0), dict(design=name, problem='%s `%s` has %d symbols' % (kind, thing.attrs.get('name'), len(ss))))
+            if ss:
+                sym_of[id(thing)] = ss[0]
+        # (2) placed symbols: each exactly once in the grid, rectangles disjoint
+        grid = sch.attrs.get('symbol_matrix')
+        real = [o for o in objs if o.cinfo.name not in MARKERS]
+        try:
+            cells = {}
+            if grid is not None:
+                for r in range(grid.shape[0]):
+                    for c in range(grid.shape[1]):
+                        if isinstance(grid[r, c], ObjV):
+                            cells.setdefault(id(grid[r, c]), []).append((r, c))
+            for o in real:
+                if len(cells.get(id(o), [])) != 1:
+                    problems.setdefault(('grid-placement', cls0), dict(design=name, problem='symbol of `%s` occupies %d grid cells' % (
+                        (o.attrs.get('obj').attrs.get('name') if isinstance(o.attrs.get('obj'), ObjV) else o.cinfo.name), len(cells.get(id(o), [])))))
+            # every pin of a symbol has its own position (a net is drawn to the position its pin reports)
+            for o in real:
+                ob = o.attrs.get('obj')
+                if not isinstance(ob, ObjV) or not ob.attrs.get('children') and o.cinfo.name in ('InPortSymbol', 'OutPortSymbol', 'InOutPortSymbol'):
+                    continue
+                for plist, getter in (('inPorts', 'getPortSinkPos'), ('outPorts', 'getPortSourcePos')):
+                    pl = [p_ for p_ in ob.attrs.get(plist, []) if isinstance(p_, ObjV)] if isinstance(ob.attrs.get(plist), list) else []
+                    if len(pl) < 2:
+                        continue
+                    pos = [tuple(meth(el, o, getter, p_)) for p_ in pl]
+                    if len(set(pos)) != len(pos):
+                        dup = [pl[i].attrs.get('name') for i in range(len(pos)) if pos.count(pos[i]) > 1]
+                        problems.setdefault(('pin-position', '%s:%s' % (o.cinfo.name, ','.join(dup))), dict(design=name, problem='pins %s of `%s` (drawn as %s) report the same position: the nets of different wires end on one point' % (dup, ob.attrs.get('name'), o.cinfo.name)))
+            rects = []
+            for o in real:
+                w, h = meth(el, o, 'getWidth'), meth(el, o, 'getHeight')
+                rects.append((o.attrs['x'], o.attrs['y'], o.attrs['x'] + w, o.attrs['y'] + h, o))
+            for i in range(len(rects)):
+                for j in range(i + 1, len(rects)):
+                    a, b = rects[i], rects[j]
+                    if a[0] < b[2] and b[0] < a[2] and a[1] < b[3] and b[1] < a[3]:
+                        problems.setdefault(('overlap', cls0), dict(design=name, problem='symbols of `%s` and `%s` overlap' % tuple(
+                            (x[4].attrs.get('obj').attrs.get('name') if isinstance(x[4].attrs.get('obj'), ObjV) else x[4].cinfo.name) for x in (a, b))))
+        except (ElabError, PyExc, ElabRaise, TypeError, KeyError) as e:
+            skipped.append('%s: geometry not evaluable: %s' % (name, str(e)[:60]))
+        # (3) connectivity per wire
+        wires = {}
+        for c in children:
+            for po in c.attrs.get('outPorts', []):
+                w = po.attrs.get('wire')
+                if w is not None:
+                    wires.setdefault(id(w), dict(w=w, drv=[], rd=[]))['drv'].append((c, po))
+            for po in c.attrs.get('inPorts', []):
+                w = po.attrs.get('wire')
+                if w is not None:
+                    wires.setdefault(id(w), dict(w=w, drv=[], rd=[]))['rd'].append((c, po))
+        for po in top.attrs.get('inPorts', []):
+            wires.setdefault(id(po.attrs['wire']), dict(w=po.attrs['wire'], drv=[], rd=[]))['drv'].append((po, po))
+        for po in top.attrs.get('outPorts', []):
+            wires.setdefault(id(po.attrs['wire']), dict(w=po.attrs['wire'], drv=[], rd=[]))['rd'].append((po, po))
+
+        def node(sym, port):
+            if sym is None:
+                return None
+            if sym.cinfo.name in MARKERS or port is None:
+                return ('m', id(sym))
+            return ('p', id(sym), id(port))
+        for wi in wires.values():
+            w = wi['w']
+            wn = w.attrs.get('name')
+            if len(wi['drv']) != 1 or not wi['rd']:
+                continue        # undriven / unread wires: nothing to draw (or outside the domain)
+            mine = [n for n in nets if n.attrs.get('wire') is w]
+            parent = {}
+
+            def find(x):
+                while parent.setdefault(x, x) != x:
+                    parent[x] = parent[parent[x]]
+                    x = parent[x]
+                return x
+            foreign = None
+            for n in mine:
+                a, b = node(n.attrs.get('source'), n.attrs.get('sourcePort')), node(n.attrs.get('sink'), n.attrs.get('sinkPort'))
+                if a is None or b is None:
+                    continue
+                parent[find(a)] = find(b)
+                for sym, port in ((n.attrs.get('source'), n.attrs.get('sourcePort')), (n.attrs.get('sink'), n.attrs.get('sinkPort'))):
+                    if isinstance(port, ObjV) and sym is not None and sym.cinfo.name not in MARKERS and port.attrs.get('wire') is not w:
+                        foreign = (sym, port)
+            if foreign:
+                problems.setdefault(('foreign-pin', cls0), dict(design=name, problem='a net of wire `%s` ends on pin `%s` of `%s`, which carries another wire' % (
+                    wn, foreign[1].attrs.get('name'), (foreign[0].attrs.get('obj').attrs.get('name') if isinstance(foreign[0].attrs.get('obj'), ObjV) else '?'))))
+            owner, dport = wi['drv'][0]
+            dsym = sym_of.get(id(owner))
+            dn = node(dsym, dport) if dsym is not None else None
+            if dn is None or dn not in parent:
+                problems.setdefault(('driver-pin', cls0), dict(design=name, problem='no net of wire `%s` touches the pin that drives it (`%s`.%s)' % (wn, owner.attrs.get('name'), dport.attrs.get('name'))))
+                continue
+            root = find(dn)
+            for owner2, rport in wi['rd']:
+                rsym = sym_of.get(id(owner2))
+                rn = node(rsym, rport) if rsym is not None else None
+                if rn is None or rn not in parent or find(rn) != root:
+                    problems.setdefault(('reader-pin', cls0), dict(design=name, problem='the figure drawn for wire `%s` does not reach the reader pin `%s`.%s' % (wn, owner2.attrs.get('name'), rport.attrs.get('name'))))
+                    break
+            if any(find(x) != root for x in list(parent)):
+                problems.setdefault(('one-figure', cls0), dict(design=name, problem='the nets drawn for wire `%s` form more than one figure' % wn))
+    ctx.analysed['schematics_built'] = done
+    ctx.analysed['schematics_outside_domain'] = outside[:10]
+    ctx.analysed['schematics_skipped'] = skipped[:12]
+    for (kind, cls0), wdict in sorted(problems.items()):
+        ctx.violation('C18.f', '%s:%s' % (kind, cls0), 'schematic of `%s`: %s' % (wdict['design'], wdict['problem']), where, witness=wdict)
+    if done < 20:
+        ctx.ok('C18.f', 'schematics', 'place-and-route is outside the interpreted subset for most designs (%d built; first reasons: %s): decided by the shape rules only' % (done, skipped[:2]), grade='refused')
+    else:
+        ctx.ok('C18.f', 'schematics-built', '%d structural blocks placed and routed by the interpreted code and examined' % done, grade='bounded')
+    if done >= 20 and not problems:
+        ctx.ok('C18.f', 'schematics', '%d structural blocks placed and routed by the interpreted code: one symbol per child and port, no overlap, every wire one connected figure from its real driver pin '
+               'to every real reader pin, no foreign pins' % done, grade='bounded')
+    return done, problems
+
+
 def run(ctx, sm, facts):
+    ctx.rule('C18.f', 'place-and-route evaluated on elaborated structural blocks: symbol count, overlap, per-wire connectivity to the real pins')
     ctx.rule('C18.a', 'one symbol per child / port, placed once; all pins registered; placement passes run once')
     ctx.rule('C18.b', 'createNets: exactly one net per registered sink pin, from the driver of its wire')
     ctx.rule('C18.c', 'net splitting re-attaches driver pin and reader pin with the same wire; chain state per wire')
@@ -320,10 +515,13 @@ def run(ctx, sm, facts):
     if sc is None:
         ctx.error('C18', 'anchor class Schematic not found')
         return
+    check_f(ctx, sm, ctx.tier, ctx.seed)
+    nv, ne = len(ctx.violations), len(ctx.errors)
     check_placement(ctx, sc)
     check_create_nets(ctx, sc)
     check_split(ctx, sc, 'insertPassthrough')
     check_split(ctx, sc, 'insertFeedback')
     check_overwrite(ctx, sc)
+    ctx.defer_shape(('C18.a', 'C18.b', 'C18.c', 'C18.d'), 'C18.f', nv, ne)
     ctx.not_decided += ['termination of place and route', 'overlap-freedom of the final grid', 'connectivity of the final drawing for all netlists',
                         'column / row assignment and routing heuristics']
